@@ -41,7 +41,8 @@ Definition memN (x : N) (l : list N) : bool := existsb (N.eqb x) l.
 
 (* same opcode / outputs; operands equal except that a label may stand for any label (checked per edge) *)
 Definition jump_shape (ib ia : inst) : bool :=
-  String.eqb (i_op ib) (i_op ia) && list_eqb N.eqb (i_outs ib) (i_outs ia) &&
+  String.eqb (i_op ib) (i_op ia) &&
+  (if String.eqb (i_op ib) "jnz" then match i_args ib with OLab _ :: _ => false | _ => true end else true) &&
   forall2b (fun ob oa => match ob, oa with OLab _, OLab _ => true | OLab _, _ => false | _, OLab _ => false | _, _ => operand_eqb ob oa end)
            (i_args ib) (i_args ia).
 
